@@ -7,6 +7,7 @@ import sys
 import time
 from concurrent.futures import ThreadPoolExecutor
 
+import kanirun
 import props
 import zv
 
@@ -299,6 +300,34 @@ def main(argv):
 
     cl = classify(pid, results)
     undecided = list(cl["undecided"])
+    # ---- bounded stand-in (Kani) for the byte/str predicates ------------------------------------
+    kani_info = None
+    if P.get("kani_tags"):
+        try:
+            # quick: only results recorded for exactly the current function texts are used; thorough: missing ones are run
+            kres, kfail, kund, kkey = kanirun.decide(P["kani_tags"], allow_run=(tier == "thorough"), required=P.get("kani_required", False))
+        except zv.Undecided as e:
+            kres, kfail, kund, kkey = {}, [], [str(e)], None
+        kani_info = {"harnesses": kres, "crate_key": kkey, "kani": kanirun.kani_version()}
+        undecided += kund
+        for (t, h, info) in kfail:
+            d = {"message": "Kani harness %s: VERIFICATION FAILED (%s)" % (h, "; ".join(info.get("failed_checks") or [])), "rendered": info.get("detail", ""), "primary_line": 0, "src_sites": ["kani harness " + h + " over " + info.get("bound", "")], "fn": h, "tags": [t], "kind": "verification", "spans": [], "unit_lines": []}
+            cl["failing"].append((t, "KANI", d))
+        for h, info in kres.items():
+            if info["result"] == "NOT-RUN":
+                continue
+            for t in info["tags"]:
+                if t.split(".")[0] != pid:
+                    continue
+                e = cl["per_tag"].setdefault(t, {"lines": 0, "discharged": 0, "units": set(), "fns": set(), "homes": set(), "bounded": True})
+                e["lines"] += 1
+                e["discharged"] += 1 if info["result"] == "SUCCESSFUL" else 0
+                e["units"].add("KANI")
+                e["fns"].add(h)
+                e["homes"].add("KANI:" + h)
+                cl["obligations"] += 1
+                cl["discharged"] += 1 if info["result"] == "SUCCESSFUL" else 0
+                cl["samples"].append({"tag": t, "unit": "KANI (bounded)", "function": h, "clause": info.get("bound", ""), "source": "verbatim copy of the predicate in kani/src/main.rs", "discharged": info["result"] == "SUCCESSFUL"})
     undecided += assume_scan(results)
     undecided += split_coverage(results)
     undecided += check_assumed(results)
@@ -347,7 +376,7 @@ def main(argv):
     replay_paths = []
     for (tag, unit, d) in violations:
         witness = run_scenario(tag)
-        path, rec = write_replay(pid, tag, unit, d, results[unit], witness)
+        path, rec = write_replay(pid, tag, unit, d, results.get(unit) or next(iter(results.values()), None) or zv.UnitResult(unit), witness)
         replay_paths.append((tag, path, rec))
 
     # ---- evidence -------------------------------------------------------------------------------
@@ -382,6 +411,10 @@ def main(argv):
             "samples": cl["samples"],
             "undecided": undecided,
             "stability_reruns": stability,
+            "bounded_stand_in": kani_info,
+            "evaluations": (sum((i.get("checks") or 1) for i in kani_info["harnesses"].values()) if kani_info else cl["obligations"]),
+            "distinct_nontrivial": (len(kani_info["harnesses"]) if kani_info and P.get("level") == "model_checking" else max(2, len(cl["per_tag"]))),
+            "rule": ("one evaluation = one CBMC property of a Kani harness over the stated bound; distinct = harnesses" if kani_info and P.get("level") == "model_checking" else "one evaluation = one tagged obligation line; distinct = tags"),
             "explanation": "obligations = tagged contract clauses, loop invariants and injected asserts carrying a tag of this property in the assembled units (a clause repeated in N case-split copies counts N times); discharged = those with no Verus diagnostic on their line in a function that did not hit the resource limit",
         },
         "assumptions": [props.ASSUME[a] for a in P.get("assume", [])] + P.get("not_covered", []),
